@@ -30,6 +30,9 @@ CHECKS = {
  "C20": dict(design="§6 C20", technique="deterministic simulation: action timing x preview child behaviours x exit instants vs expected-request model and process-table invariants",
    text="Whole simulated interactive sessions with a preview template over {n} {q} {} {+n} (sometimes {f}); seeded histories of cursor moves, query edits, selections, refresh/toggle/change-preview, preview(...), window changes and resizes, timed inside the 100 ms / 500 ms windows of the previewer protocol; preview children of seeded behaviour (instant, slow start, incremental, endless, silent, not startable, clear-screen code early/late/repeated, failing, forking shell). Invariant at every scheduler step: at most one preview process group alive un-killed. At every settle: the argv of the command that ran last equals (ordinal, query, line, selection in order) of the state at settle and the preview pane holds what it emitted. At exit: nothing alive un-killed, no temp file left.",
    note="One-off preview(...) and hidden windows are excluded from the freshness comparison (documented one-off semantics; a command queued before the window was hidden may run to its natural end). A running command that has not produced output yet legitimately leaves the previous content in the pane."),
+ "C15": dict(design="§6 C15", technique="deterministic simulation: action histories x incremental redraw x geometry vs structural screen parser over a VT emulator fed by the real renderer",
+   text="Whole simulated interactive sessions in the option subset whose layout is documented precisely (layouts default/reverse/reverse-list, info default/inline/right/hidden, --header, --header-lines, --multi, unicode or ASCII glyphs, no borders/preview, full screen, --no-scrollbar; 14..100 x 6..36 with resizes) under seeded histories of typing, long queries, cursor motion, navigation, selection and toggle-header; after every action the bytes of the real LightRenderer, interpreted by the VT emulator, are parsed structurally and compared with the state at that point: prompt row, info counters, each list row in layout order (pointer on exactly the current row, marker on exactly the selected rows, complete line when it fits, otherwise a contiguous piece with the ellipsis within the width), empty rows beyond the results (stale rows of the incremental redraw), header outside the list rows, nothing past the right margin.",
+   note="Scroll offsets (list and prompt) are read from the terminal and only checked for containing the cursor: which window fzf shows is its choice. Emulator implements exactly the sequences light.go emits (unknown sequence => exit 2). Wide/combining glyphs, wrapping, multi-line items, borders and preview panes are outside the exact comparison (C14 covers them for robustness)."),
  "C16": dict(design="§6 C16", technique="deterministic simulation with fault injection: request bytes x fragmentation x stalls x early close x concurrent clients x keys vs request classifier known by construction",
    text="Whole simulated interactive sessions with --listen on local / non-local addresses, with / without FZF_API_KEY, and 1..15 simulated clients (some concurrent) sending requests whose class is known by construction - valid GET (limit/offset), valid POST, bad Content-Length (missing, zero, oversize, non-numeric, negative), key absent / exact / prefix / suffix / case-variant / wrong / empty in four header spellings, wrong method/path/version, invalid or empty action list - or arbitrary bytes, with seeded fragmentation, stalls up to beyond the 10 s read timeout and early close at any byte, interleaved with keys and a process-executing binding. Every connection left open must get exactly one well-formed HTTP/1.1 response with matching Content-Length; class => status (200/400/401/503); the query must hold exactly the unique markers of the authorised valid POSTs answered 200, once each, in connection order (so rejected requests have no effect and nothing arrives twice); a final authorised GET must still be served (no wedge); a non-local address without a key must refuse to start.",
    note="Requests stalled for about the read timeout may be rejected (400/401) or served. Duplicate headers and body-length mismatches are only checked for robustness. The differential POST-vs-bind clause is covered through the put() markers only; action semantics are C09's."),
